@@ -1,5 +1,5 @@
 use anyhow::Result;
-use poulpy_core::{GLWEShift, ScratchTakeCore};
+use poulpy_core::{GLWEShift, ScratchTakeCore, layouts::LWEInfos};
 use poulpy_hal::layouts::{Backend, DataMut, DataRef, Module, Scratch};
 
 use crate::{CKKSInfos, checked_log_budget_sub, layouts::CKKSCiphertext};
@@ -48,7 +48,11 @@ pub(crate) trait CKKSRescaleOpsDefault<BE: Backend> {
         Scratch<BE>: ScratchTakeCore<BE>,
     {
         let log_budget = checked_log_budget_sub("rescale", src.log_budget(), k)?;
-        self.glwe_lsh(dst, src, k, scratch);
+        // As every other out-of-place operation: bits that do not fit the destination are paid
+        // from the remaining log_budget instead of being announced but not stored.
+        let offset = (src.log_delta() + log_budget).saturating_sub(dst.max_k().as_usize());
+        let log_budget = checked_log_budget_sub("rescale", log_budget, offset)?;
+        self.glwe_lsh(dst, src, k + offset, scratch);
         dst.meta = src.meta();
         dst.meta.log_budget = log_budget;
         Ok(())
